@@ -136,3 +136,38 @@ pub fn title_of(text: &str) -> Option<String> {
 pub fn plain_text_raw(inl: &[SInline]) -> String {
     plain_text(inl)
 }
+
+/// Scan-level predicates over a note's title (first heading): does it hold a link (KF-TITLE-LINK)
+/// and would its plain text need escaping when written as link text (KF-ESCAPE)?
+pub fn title_flags(text: &str) -> (bool, bool) {
+    let s = scan(text);
+    match s.blocks.first() {
+        Some(b) if matches!(b.kind, BKind::Heading(_)) => {
+            let mut ls = vec![];
+            links_of(&b.inlines, &mut ls);
+            let has_link = ls.iter().any(|l| matches!(l, SInline::Link { .. }));
+            let plain = plain_text(&b.inlines);
+            let punct = plain.chars().any(|c| "*_[]`|\\!#()".contains(c)) || plain.contains('<') && b.inlines.iter().any(|i| matches!(i, SInline::Code(_)));
+            (has_link, punct)
+        }
+        _ => (false, false),
+    }
+}
+
+pub fn lib_domain_discard(lib: &Lib) -> Option<String> {
+    use crate::framework::feature_on;
+    for text in lib.values() {
+        let s = scan(text);
+        if let Some(r) = crate::canon::domain_discard(&s) {
+            return Some(r);
+        }
+        let (l, p) = title_flags(text);
+        if l && !feature_on("link_in_title") {
+            return Some("known-domain: the note's title holds a link".into());
+        }
+        if p && !feature_on("title_code_punct") {
+            return Some("known-domain: the note's title holds Markdown punctuation".into());
+        }
+    }
+    None
+}
